@@ -650,8 +650,14 @@ TAMPER_CLASSES = ["ivt", "bd", "cfg", "app", "csfcmds", "srktable", "csfkcert", 
 def run_case(arg):
     c, n_tamper = arg
     wd = os.path.join(scratch(), "c07", f"case-{c['id']}-{c['rep']}")
-    ctx = concretise(c, wd)
     tid = f"c{c['id']}r{c['rep']}"
+    try:
+        ctx = concretise(c, wd)
+    except Machinery:
+        raise
+    except Exception as x:  # noqa: BLE001 - SRK table / fuse value could not be produced by SPSDK from valid certificates
+        ev = [{"ev": "BuildFailed", "exc": type(x).__name__, "msg": "preparing the SRK table: " + str(x)[:160]}]
+        return [{"id": tid, "inp": {"flags": c["flags"], "waive": []}, "ev": ev, "meta": {"case": c, "cfg_cls": c["cfg"], "family": None}}]
     meta = {"case": c, "cfg_cls": ctx["cfg_cls"], "family": ctx["family"]}
     try:
         d = build(ctx)
@@ -682,8 +688,6 @@ def run_case(arg):
 def anchor_traces():
     """Golden images of the repository's test data (frozen copies under anchors/C07, produced by NXP's tool chain): the ROM part of
     the automaton must accept every one of them - this binds the R-spec to artefacts that were not produced by the tree under test."""
-    from spsdk.image.secret import SrkTable
-
     from lib.common import ROOT
 
     base = os.path.join(ROOT, "anchors", "C07")
@@ -705,7 +709,7 @@ def anchor_traces():
                "vfyIdx": int(sec["26"]["authenticatedata_verificationindex"]) if "26" in sec else 0,
                "macLen": int(sec["28"].get("decrypt_macbytes", 16)) if "28" in sec else 16, "dekLen": len(rd("dek.bin") or b""), "waive": []}
         ctx = {"inp": inp, "app": app, "cfg_bytes": dcd or b"", "start": o["startaddress"], "srk_der": None,
-               "fuse": SrkTable.parse(table).export_fuses() if table else None, "csfk_der": rd("csfk.der"), "imgk_der": rd("imgk.der"),
+               "fuse": bytes.fromhex(m["fuse_hex"]) if m.get("fuse_hex") else None, "csfk_der": rd("csfk.der"), "imgk_der": rd("imgk.der"),
                "dek_path": os.path.join(a, "dek.bin") if rd("dek.bin") else None}
         ev, _ = execute(d, ctx)
         out.append({"id": "anchor/" + name, "inp": inp, "ev": ev, "meta": {}})
@@ -714,6 +718,9 @@ def anchor_traces():
 
 def preload():
     """Import everything the forked workers need once, in the parent."""
+    import warnings
+
+    warnings.filterwarnings("ignore")  # tampered certificates (e.g. negative serial numbers) make `cryptography` warn
     import asn1crypto.cms  # noqa: F401
     import asn1crypto.x509  # noqa: F401
     import cryptography.hazmat.primitives.ciphers.aead  # noqa: F401
@@ -724,7 +731,7 @@ def preload():
 
 
 def gen_cases(tier):
-    env = {"GEN_SEED": seed() % 100000, "GEN_FULL": 0 if tier == "quick" else 1, "GEN_REPS": 1 if tier == "quick" else 2}
+    env = {"GEN_SEED": seed() % 100000, "GEN_FULL": 0 if tier == "quick" else 1, "GEN_REPS": 1 if tier == "quick" else 3}
     r = tlc.run("C07", "HabGen", workers=1 if tier == "quick" else 4, env=env, timeout=600, heap="4g")
     if r.violated:
         raise Machinery(f"HabGen: {r.violated}")
@@ -770,31 +777,50 @@ CANARY_FIELDS = [("ParseIvt", "self", lambda v: [v[0], (v[1] + 0x400) & 0xFFFF])
                  ("InstallKey", "fuseOk", lambda v: False), ("ParseBack", "appEq", lambda v: False)]
 
 
-def canary_batch(traces):
-    """One known-good trace (must be accepted) and the same trace with one corrupted field each (must be rejected)."""
-    good = next((t for t in traces if t["inp"]["flags"] == "auth" and t["inp"]["cfgKind"] == "dcd" and t["ev"][-1]["ev"] == "ParseBack"
-                 and t["ev"][-1].get("ok") and "/t/" not in t["id"]), None)
-    if good is None:
-        raise Machinery("no authenticated trace with DCD available for the canary")
-    inp = dict(good["inp"], waive=[])
-    batch = [{"id": "canary/good", "inp": inp, "ev": good["ev"], "meta": {}}]
-    for i, (evn, fld, fn) in enumerate(CANARY_FIELDS):
+def corrupt(good, prefix, fields):
+    out = []
+    for i, (evn, fld, fn) in enumerate(fields):
         ev = json.loads(json.dumps(good["ev"]))
         idx = [k for k, e in enumerate(ev) if e["ev"] == evn and fld in e and (fld != "blocks" or len(e[fld]) > 1)]
         if not idx:
-            raise Machinery(f"canary: no event {evn}.{fld}")
+            continue
         k = idx[-1] if evn == "Authenticate" else idx[0]
         ev[k][fld] = fn(ev[k][fld])
-        batch.append({"id": f"canary/bad{i}-{evn}.{fld}", "inp": inp, "ev": ev, "meta": {}})
-    return batch, good["id"]
+        out.append({"id": f"{prefix}/bad{i}-{evn}.{fld}", "inp": good["inp"], "ev": ev, "meta": {}})
+    return out
 
 
-def canary_check(batch, good_id, rej):
-    got = {b["id"] for b in batch if b["id"] in rej}
-    want = {b["id"] for b in batch[1:]}
-    if got != want:
-        raise Machinery(f"canary failed: rejected {sorted(got)}, expected {sorted(want)} (good trace = {good_id})")
-    return f"1 good accepted, {len(want)} corrupted rejected (copy of {good_id})"
+def canary_batch(traces, anchors):
+    """Known-good traces and the same traces with one corrupted field each.  The first known-good trace is a frozen golden image
+    (independent of the tree under test): it must be accepted and every corrupted copy rejected.  Up to three traces of this run
+    are added (they also carry the ParseBack step): for each of them that TLC accepts, every corrupted copy must be rejected."""
+    good = next((t for t in anchors if t["inp"]["flags"] == "auth" and t["inp"]["cfgKind"] == "dcd"), None)
+    if good is None:
+        raise Machinery("no authenticated golden image with DCD for the canary")
+    groups = [("canary/anchor", dict(good, id="canary/anchor/good"), True)]
+    cands = [t for t in traces if t["inp"]["flags"] == "auth" and t["inp"]["cfgKind"] == "dcd" and t["ev"][-1]["ev"] == "ParseBack"
+             and t["ev"][-1].get("ok") and "/t/" not in t["id"]][:3]
+    for k, t in enumerate(cands):
+        groups.append((f"canary/run{k}", {"id": f"canary/run{k}/good", "inp": dict(t["inp"], waive=[]), "ev": t["ev"], "meta": {}}, False))
+    batch = []
+    for prefix, g, _must in groups:
+        batch += [g] + corrupt(g, prefix, CANARY_FIELDS)
+    return batch, groups
+
+
+def canary_check(batch, groups, rej):
+    n_bad = 0
+    for prefix, g, must in groups:
+        if g["id"] in rej:
+            if must:
+                raise Machinery(f"canary failed: the known-good golden trace was rejected: {rej[g['id']]}")
+            continue  # a trace of this run that the R-spec rejects is reported by the normal path
+        bad = [b["id"] for b in batch if b["id"].startswith(prefix + "/bad")]
+        acc = [i for i in bad if i not in rej]
+        if acc or len(bad) < 4:
+            raise Machinery(f"canary failed: corrupted copies accepted {acc} ({len(bad)} corrupted copies of {g['id']})")
+        n_bad += len(bad)
+    return f"{len(groups)} known-good traces (1 golden image + {len(groups) - 1} of this run), {n_bad} corrupted copies of the accepted ones rejected"
 
 
 def strip(t):
@@ -812,12 +838,12 @@ def decide(v, traces):
 
     for t in traces:
         t["inp"]["waive"] = []
-    cb, good_id = canary_batch(traces)
     anchors = anchor_traces()
+    cb, groups = canary_batch(traces, anchors)
     mains = [t for t in traces if "/t/" not in t["id"]]
     tampers = [t for t in traces if "/t/" in t["id"]]
     rej, _ = tlc.tv("C07", "HabRomTrace", [strip(t) for t in cb + anchors + traces], heap="8g", timeout=1500)
-    v.extra["canary"] = canary_check(cb, good_id, rej)  # decided first: nothing below counts if the monitor is not bound
+    v.extra["canary"] = canary_check(cb, groups, rej)  # decided first: nothing below counts if the monitor is not bound
     bad_anchors = [(t["id"], rej[t["id"]]) for t in anchors if t["id"] in rej]
     if bad_anchors or len(anchors) < 11:
         raise Machinery(f"golden images (anchors/C07, not produced by the tree under test) rejected by the automaton: {bad_anchors}")
